@@ -84,10 +84,23 @@ class Lock:
 # ---------------------------------------------------------------------------------------------
 # builds
 
+def go_module_dir():
+    """The harness module. Its go.mod replaces the repository module with /repo; when BRV_REPO points
+    elsewhere (background sweeps on a snapshot) a private copy with the replace rewritten is used."""
+    if str(REPO) == "/repo":
+        return GO
+    priv = WORK / "go-private"
+    subprocess.run(["rsync", "-a", "--delete", str(GO) + "/", str(priv) + "/"], check=True)
+    gm = (priv / "go.mod").read_text().replace("=> /repo", f"=> {REPO}")
+    (priv / "go.mod").write_text(gm)
+    return priv
+
+
 def build_go(names):
     """Build harness binaries from /verif/go (which `replace`s the module with /repo) with the verif tag."""
     BIN.mkdir(parents=True, exist_ok=True)
     with Lock("go"):
+        GO = go_module_dir()
         if not (GO / "go.sum").exists() and (REPO / "go.sum").exists():
             (GO / "go.sum").write_bytes((REPO / "go.sum").read_bytes())
         for n in names:
@@ -276,7 +289,7 @@ def run_harness(name, script_path, out_path, timeout=600, limit_kb=6_000_000, ar
     err_path = str(out_path) + ".stderr"
     rc, _, err = sh([str(BIN / name)] + list(args), stdin_path=script_path, stdout_path=out_path,
                     stderr_path=err_path, timeout=timeout, limit_kb=limit_kb,
-                    env=dict(os.environ, GOMEMLIMIT="3GiB"))
+                    env=dict(os.environ, GOMEMLIMIT="3GiB", BRV_FACTS=str(WORK / "facts.json")))
     return rc, err
 
 
